@@ -23,6 +23,16 @@ PipeMut == {"appendg", "appendm", "appendgm"}
 \* what request 1 used; "ctxage": it was handled under a session context age (the handler context got a deadline context);
 \* "callctx": the peer then made a call of its own with a caller-supplied context, whose reply a pooled context processed
 CtxFeat == {"meta", "pipe", "codec", "outmeta", "outcodec", "swap", "status", "ctxage", "callctx"}
+\* previous uses that END NOT OK and so leave a status on the pooled context that handled them (process-wide pool): a call
+\* answered with the handler's error / "not found" / "bad message" (undecodable argument) -- the status stays on the
+\* serving side's context and, through the reply, on the CALLING side's; a push handled with an error / not found; a
+\* frame of an unsupported type (the session ends, the next user works on a new session of the same peers).
+\* They run after request 1, in the order given; the next user's operation is the first one after them
+CtxBad  == {"callerr", "callnotfound", "callbadbody", "pusherr", "pushnotfound", "badmtype"}
+\* next = "call" / "push": the next user sends a call / a push; the observation vector is what the serving handler sees
+\* of its context, the reply, and what the SENDING side's PreWriteCall / PostWriteCall resp. PreWritePush / PostWritePush
+\* plugins see through the WriteCtx they are given (a pooled handler context in the case of a push): status nil-ness and
+\* code, StatusOK, the output message's fields, swap length
 Seqs(S, n) == UNION {[1..k -> S] : k \in 0..n}
 Cases ==
        {[fam |-> "pool", kind |-> "message", muts |-> q, next |-> nx, expect |-> "fresh"] : q \in Seqs(MsgMut, MaxMut), nx \in {"observe", "pack"}}
@@ -32,6 +42,9 @@ Cases ==
   \cup {[fam |-> "pool", kind |-> "xferpipe", muts |-> q, next |-> "observe", expect |-> "fresh"] : q \in Seqs(PipeMut, 2)}
   \cup {[fam |-> "pool", kind |-> "ctx", muts |-> q, next |-> nx, expect |-> "fresh"] :
           q \in {s \in Seqs(CtxFeat, 3) : \A i, j \in 1..Len(s) : i < j => s[i] # s[j]}, nx \in {"call", "push"}}
+  \cup {[fam |-> "pool", kind |-> "ctx", muts |-> q, next |-> nx, expect |-> "fresh"] :
+          q \in {s \in Seqs(CtxFeat \cup CtxBad, 2) : /\ \E i \in 1..Len(s) : s[i] \in CtxBad
+                                                    /\ \A i, j \in 1..Len(s) : i < j /\ s[i] \in CtxBad => s[j] \in CtxBad}, nx \in {"call", "push"}}
 VARIABLES c, done
 vars == <<c, done>>
 Init == c \in Cases /\ done = FALSE
